@@ -274,6 +274,10 @@ def write_evidence(pid, tier, ctx, wall, n_viol, thorough_info=None):
         "decided": decided_clauses(pid),
         "not_decided": P["not_decided"],
     }
+    cov["normal_form"] = {
+        "helpers_inlined": {k: getattr(p, "inlined_helpers", []) for k, p in ctx.progs.items() if k in ("lib", "bin")},
+        "renames_undone": {k: getattr(p, "renames", None) for k, p in ctx.progs.items() if k in ("lib", "bin") and getattr(p, "renames", None)},
+    }
     if thorough_info:
         cov["thorough"] = thorough_info
     if SELFTEST:
@@ -300,11 +304,16 @@ def load_progs(config="default", root=None):
     fx = F.extract(root or REPO, config, use_cache=(root is None or root == REPO))
     import inline
     out = {}
+    import rename
     for k, v in fx.items():
+        rep = None
+        if k in ("lib", "bin"):
+            v, rep = rename.canonicalize(v, k)      # pure renames of private functions / types / fields are undone first
         p = C.Program(v, k)
         if k in ("lib", "bin"):
             p, inlined = inline.inline_program(p)
             p.inlined_helpers = inlined
+        p.renames = rep
         out[k] = p
     return out
 
